@@ -12,11 +12,13 @@ from .aggs import SPECS, build_check
 from . import C03 as _c03
 from . import C16 as _c16
 
-NAMES = ["Mean", "Sum", "Constant", "Random", "IMTLG", "AlignedMTL.default", "AlignedMTL.pref", "ConFIG.default", "ConFIG.pref"]
+NAMES = ["Mean", "Sum", "Constant", "Random", "IMTLG", "AlignedMTL.default", "AlignedMTL.pref", "ConFIG.default", "ConFIG.pref", "PCGrad", "CAGrad"]
 CHECKS = [build_check("C08", SPECS[k], clauses=("post", "span")) for k in NAMES]
 # UPGrad / DualProj / Krum: their end-to-end contracts (C03, C16) are re-checked under this property's name
 for _c in _c03.CHECKS + [c for c in _c16.CHECKS if c.name.startswith("krum.forward")]:
     CHECKS.append(_c)
+from .C18 import CHECKS as _c18  # noqa: E402
+CHECKS += [c for c in _c18 if c.name == "MGDA"]
 TRUSTED = ["Gramian-determined primitives: linalg.norm(J, dim=1)^2 = diag(J J^T); cdist(J,J)^2 = G_ii + G_jj - 2 G_ij; the "
            "left singular vectors/values of J are those of J J^T (bridge lemma svd_gram)",
            "bridge lemmas gramAgg_orthogonal, gramAgg_isometry, gramAgg_col_perm, gramAgg_zero_cols, gramAgg_mem_rowSpan (Lean)"]
